@@ -7,7 +7,10 @@ CONSTANTS K1, K2, K3          \* the route each request resolves to: "a" | "b" |
 MCKindOf(r) == CASE r = "r1" -> K1 [] r = "r2" -> K2 [] r = "r3" -> K3
 
 VARIABLE hist
-Act(r) == IF pc[r] = "new" THEN "acquire" ELSE IF pc[r] = "start" THEN "start" ELSE "step"
+\* "silent": a step of the model inside one uninterrupted stretch of the code (the harness does nothing for it)
+Act(r) == IF pc[r] = "new" THEN "acquire"
+          ELSE IF pc[r] = "start" THEN (IF phase[r] = 0 THEN "start" ELSE "silent")
+          ELSE IF pos[r] > chain[r].len /\ KindOf(r) = "rd" /\ phase[r] = 0 THEN "silent" ELSE "step"
 MCInit == Init /\ hist = <<>>
 MCNext == \E r \in Reqs : /\ (Acquire(r) \/ Start(r) \/ Boundary(r))
                           /\ hist' = Append(hist, <<r, Act(r)>>)
